@@ -429,6 +429,10 @@ pub struct World {
     pub gm_offset_ns: i128,
     pub gm_drift_ppm: f64,
     pub gm_epoch_ns: u128,
+    /// the emulated master's exchanges: Syncs sent (sequence id, kernel transmit time in system ns, origin timestamp
+    /// put into the Follow_Up) and Delay_Reqs answered (sequence id, kernel receive time, receive timestamp replied)
+    pub syncs_sent: Vec<(u16, u128, u128)>,
+    pub dreqs_answered: Vec<(u16, u128, u128)>,
     sync_seq: u16,
     pub delay_resps_sent: u64,
     /// how the harness answers the Pdelay_Req frames of the daemon's port on the parent's segment (P2P variant)
@@ -544,6 +548,8 @@ impl World {
             gm_offset_ns: 0,
             gm_drift_ppm: 0.0,
             gm_epoch_ns: now_ns(),
+            syncs_sent: vec![],
+            dreqs_answered: vec![],
             sync_seq: 0,
             delay_resps_sent: 0,
             pd_plan: VecDeque::new(),
@@ -700,6 +706,9 @@ impl World {
                     if self.emulate_master {
                         // as if it had arrived one link delay from now
                         let t4 = self.gm_clock(at_a) + self.link_delay_ns as u128;
+                        if self.dreqs_answered.len() < 100_000 {
+                            self.dreqs_answered.push((m.header.seq, at_a, t4));
+                        }
                         let r = RMsg::new(T_DELAY_RESP, PARENT, m.header.seq, RBody::DelayResp { receive: RTs::from_ns(t4), requesting: m.header.source });
                         self.a1.send(&r.encode());
                         self.delay_resps_sent += 1;
@@ -829,6 +838,36 @@ impl World {
         v
     }
 
+    /// (event time ns, raw sync offset ns, raw delay offset ns) of the measurements the daemon logged after `mark`
+    pub fn logged_measurements_since(&self, mark: u64) -> Vec<(f64, Option<f64>, Option<f64>)> {
+        use std::io::{Seek, SeekFrom};
+        let mut v = vec![];
+        let Ok(mut f) = std::fs::File::open(self.dir.join("daemon.log")) else { return v };
+        if f.seek(SeekFrom::Start(mark)).is_err() {
+            return v;
+        }
+        let mut bytes = vec![];
+        if f.read_to_end(&mut bytes).is_err() {
+            return v;
+        }
+        let num_after = |line: &str, key: &str| -> Option<f64> {
+            let p = line.find(key)?;
+            let rest = &line[p + key.len()..];
+            let n: String = rest.chars().take_while(|c| c.is_ascii_digit() || *c == '.' || *c == '-').collect();
+            n.parse::<f64>().ok()
+        };
+        for line in String::from_utf8_lossy(&bytes).lines() {
+            if !line.contains("Measurement: Measurement {") {
+                continue;
+            }
+            let Some(ev) = num_after(line, "event_time: Time { inner: ") else { continue };
+            let rso = num_after(line, "raw_sync_offset: Some(Duration { inner: ");
+            let rdo = num_after(line, "raw_delay_offset: Some(Duration { inner: ");
+            v.push((ev, rso, rdo));
+        }
+        v
+    }
+
     /// does the daemon's log contain `needle` after byte offset `mark`?
     pub fn log_contains_since(&self, mark: u64, needle: &str) -> bool {
         use std::io::{Seek, SeekFrom};
@@ -885,6 +924,9 @@ impl World {
         // as if it had left one link delay ago
         let sent_at = self.a1.send_ts(&m.encode()).unwrap_or_else(now_ns);
         let t1 = self.gm_clock(sent_at).saturating_sub(self.link_delay_ns as u128);
+        if self.syncs_sent.len() < 100_000 {
+            self.syncs_sent.push((self.sync_seq, sent_at, t1));
+        }
         let mut f = RMsg::new(T_FOLLOW_UP, PARENT, self.sync_seq, RBody::FollowUp { precise_origin: RTs::from_ns(t1) });
         f.header.log_interval = ANN_LOG;
         self.a1.send(&f.encode());
@@ -2118,6 +2160,156 @@ pub fn case_c03(w: &mut World, t: &mut Tape) -> E2eOut {
     E2eOut { out, inconclusive: None }
 }
 
+// ---------------------------------------------------------------- C09 case (what the real daemon hands to its filter)
+
+/// One case: the harness is the grandmaster (kernel timestamps both ways, generated drift); for 6-10 s it records
+/// every Sync it sent (kernel transmit time, origin timestamp t1 in the Follow_Up) and every Delay_Req it answered
+/// (kernel receive time, t4 replied), and reads the daemon's clock off its master port (D = daemon clock - system
+/// clock). Every measurement the daemon logs must be that of one of those exchanges - its event time within 2 ms of
+/// one Sync's (Delay_Req's) moment - and carry the value of that exchange: raw sync offset = t2 - t1 = D - G + latency,
+/// raw delay offset = t3 - t4 = D - G - latency, where G = grandmaster clock - system clock is known exactly and the
+/// latency of the veth pair is 0..300 us (and D is read to +-100 us).
+pub fn case_c09(w: &mut World, t: &mut Tape) -> E2eOut {
+    let mut out = CaseOut::new();
+    // a few readings of the daemon's clock from before the grandmaster's clock changes (the daemon's first measurements
+    // of this case are still taken on its old time scale)
+    w.emulate_master = true;
+    w.frames_b.clear();
+    w.keep_frames = true;
+    let d = Instant::now() + Duration::from_millis(400);
+    w.run_until(d);
+    let before = std::mem::take(&mut w.frames_b);
+    w.gm_offset_ns = match t.below(3) {
+        0 => 0,
+        1 => t.range(-400_000, 400_000) as i128,
+        _ => t.range(-3_000_000_000, 3_000_000_000) as i128,
+    };
+    w.gm_drift_ppm = t.range(-60_000, 60_000) as f64 / 1000.0;
+    w.gm_epoch_ns = now_ns();
+    let (off, drift, epoch) = (w.gm_offset_ns, w.gm_drift_ppm, w.gm_epoch_ns);
+    let g_at = move |sys: f64| -> f64 { off as f64 + (sys - epoch as f64) * drift / 1e6 };
+    w.link_delay_ns = 0;
+    w.emulate_master = true;
+    w.syncs_sent.clear();
+    w.dreqs_answered.clear();
+    let run_s = t.urange(6, 10);
+    let log_mark = std::fs::metadata(w.dir.join("daemon.log")).map(|m| m.len()).unwrap_or(0);
+    w.frames_b = before;
+    w.keep_frames = true;
+    let t0 = Instant::now();
+    let mut dsamples: Vec<(f64, f64)> = vec![]; // (system ns, daemon clock - system clock)
+    let mut syncs: std::collections::HashMap<u16, u128> = Default::default();
+    while t0.elapsed() < Duration::from_secs(run_s) {
+        let d = Instant::now() + Duration::from_millis(200);
+        w.run_until(d);
+        for (at, m) in std::mem::take(&mut w.frames_b) {
+            match &m.body {
+                RBody::Sync { .. } => {
+                    syncs.insert(m.header.seq, at);
+                }
+                RBody::FollowUp { precise_origin } => {
+                    if let Some(at) = syncs.remove(&m.header.seq) {
+                        let daemon_clock = precise_origin.total_ns() as i128 + ((m.header.correction as i128) >> 16);
+                        dsamples.push((at as f64, (daemon_clock - at as i128) as f64));
+                    }
+                }
+                _ => {}
+            }
+        }
+    }
+    w.keep_frames = false;
+    w.emulate_master = false;
+    w.gm_offset_ns = 0;
+    w.gm_drift_ppm = 0.0;
+    let rendered = json!({"gm_offset_ns": off.to_string(), "gm_drift_ppm": drift, "run_s": run_s, "syncs_sent": w.syncs_sent.len(), "delay_requests_answered": w.dreqs_answered.len()});
+    out.render = rendered.clone();
+    if !w.alive() {
+        out.fail("daemon exited", rendered.to_string());
+        return E2eOut { out, inconclusive: None };
+    }
+    let ms = w.logged_measurements_since(log_mark);
+    // D at a system time: the nearest sample, only where the clock was not stepped around it
+    let d_at = |sys: f64| -> Option<f64> {
+        let i = dsamples.iter().position(|s| s.0 >= sys)?;
+        if i == 0 {
+            return None;
+        }
+        let (a, b) = (dsamples[i - 1], dsamples[i]);
+        if b.0 - a.0 > 400e6 || (b.1 - a.1).abs() > 100_000.0 {
+            return None;
+        }
+        Some(a.1 + (b.1 - a.1) * (sys - a.0) / (b.0 - a.0))
+    };
+    let mut checked = 0;
+    for (ev, rso, rdo) in &ms {
+        // the event time is a reading of the daemon's clock; as system time: minus D (looked up at the approximate moment)
+        // The event time is a reading of the daemon's clock, and D may have jumped during the case (the servo steps):
+        // every era of D that is consistent with this reading gives a candidate system time; the one that coincides
+        // with an exchange is taken.
+        let mut cands: Vec<f64> = vec![];
+        for s in dsamples.iter() {
+            if (*ev - s.1 - s.0).abs() < 700e6 {
+                let c = *ev - s.1;
+                if !cands.iter().any(|x: &f64| (x - c).abs() < 1e6) {
+                    cands.push(c);
+                }
+            }
+        }
+        if cands.is_empty() {
+            continue;
+        }
+        let hits = |sys: f64| -> bool {
+            if rso.is_some() {
+                w.syncs_sent.iter().any(|x| (x.1 as f64 - sys).abs() <= 2e6)
+            } else {
+                w.dreqs_answered.iter().any(|x| (x.1 as f64 - sys).abs() <= 2e6)
+            }
+        };
+        let sys = cands.iter().copied().find(|c| hits(*c)).unwrap_or(cands[0]);
+        // measurements of exchanges that started before this case began are not this case's business
+        let first = w.syncs_sent.first().map(|x| x.1).unwrap_or(0).max(w.dreqs_answered.first().map(|x| x.1).unwrap_or(0)) as f64;
+        if sys < first + 1e6 {
+            continue;
+        }
+        if let Some(rso) = rso {
+            let Some(sy) = w.syncs_sent.iter().min_by(|a, b| (a.1 as f64 - sys).abs().partial_cmp(&(b.1 as f64 - sys).abs()).unwrap()) else { continue };
+            if (sy.1 as f64 - sys).abs() > 2e6 {
+                let near: Vec<i64> = w.syncs_sent.iter().map(|x| ((x.1 as f64 - sys) / 1e6) as i64).filter(|d| d.abs() < 400).collect();
+                let dn: Vec<(i64, i64)> = dsamples.iter().map(|x| (((x.0 - sys) / 1e6) as i64, (x.1 / 1e3) as i64)).filter(|d| d.0.abs() < 400).collect();
+                out.fail("daemon: an offset measurement's event time is not the reception of any Sync the master sent", format!("event time {} (system {:.0}), nearest Sync sent at {} ; Syncs around (ms): {:?} ; D samples around (ms, us): {:?} ; {}", ev, sys, sy.1, near, dn, rendered));
+                break;
+            }
+            let Some(d) = d_at(sy.1 as f64) else { continue };
+            let resid = rso - (d - g_at(sy.1 as f64));
+            checked += 1;
+            if !(-100_000.0..=400_000.0).contains(&resid) {
+                out.fail("daemon: offset measurement is not t2 - t1 of the Sync/Follow_Up exchange it belongs to", format!("raw sync offset {:.0} ns, from the harness's own timestamps {:.0} ns (+ latency 0..300 us, +-100 us for the reading of the daemon's clock): off by {:.0} ns ; Sync seq {} ; {}", rso, d - g_at(sy.1 as f64), resid, sy.0, rendered));
+                break;
+            }
+        }
+        if let Some(rdo) = rdo {
+            let Some(dr) = w.dreqs_answered.iter().min_by(|a, b| (a.1 as f64 - sys).abs().partial_cmp(&(b.1 as f64 - sys).abs()).unwrap()) else { continue };
+            if (dr.1 as f64 - sys).abs() > 2e6 {
+                out.fail("daemon: a delay measurement's event time is not the moment of any Delay_Req the master answered", format!("event time {} (system {:.0}), nearest Delay_Req received at {} ; {}", ev, sys, dr.1, rendered));
+                break;
+            }
+            let Some(d) = d_at(dr.1 as f64) else { continue };
+            let resid = rdo - (d - g_at(dr.1 as f64));
+            checked += 1;
+            if !(-400_000.0..=100_000.0).contains(&resid) {
+                out.fail("daemon: delay measurement is not t3 - t4 of the Delay_Req/Delay_Resp exchange it belongs to", format!("raw delay offset {:.0} ns, from the harness's own timestamps {:.0} ns (- latency 0..300 us, +-100 us for the reading of the daemon's clock): off by {:.0} ns ; Delay_Req seq {} ; {}", rdo, d - g_at(dr.1 as f64), resid, dr.0, rendered));
+                break;
+            }
+        }
+    }
+    if checked < 8 && out.violation.is_none() {
+        return E2eOut { out, inconclusive: Some(format!("only {} of {} logged measurements could be compared (clock stepped or too few samples)", checked, ms.len())) };
+    }
+    out.label(format!("daemon:measurements-compared>={}", (checked / 20) * 20));
+    out.nontrivial = Some(hash_of(&rendered.to_string()));
+    E2eOut { out, inconclusive: None }
+}
+
 // ---------------------------------------------------------------- C11 case (what the real daemon's master port announces)
 
 fn announce_carries(m: &RMsg, ann: &RAnnounce, flags1: u8) -> Option<String> {
@@ -2777,6 +2969,7 @@ pub fn worker_main(args: &[String]) -> i32 {
             "C13" => case_c13(&mut w, &mut tape),
             "C11" => case_c11(&mut w, &mut tape),
             "C03" => case_c03(&mut w, &mut tape),
+            "C09" => case_c09(&mut w, &mut tape),
             "C06" => case_c06(&mut w, &mut tape, idx as u32),
             _ => {
                 println!("{}", json!({"fatal": format!("no end-to-end case for {}", prop)}));
